@@ -1391,26 +1391,26 @@ func (r *Remote) updateLocalReferenceStorage(
 		}
 	}
 
-	if tagMode == plumbing.NoTags {
-		return updated, nil
+	if tagMode != plumbing.NoTags {
+		tags := fetchedRefs
+		if isWildcard {
+			tags = remoteRefs
+		}
+		tagUpdated, tagForceNeeded, err := r.buildFetchedTags(tags, tagMode == plumbing.AllTags, force)
+		if err != nil {
+			return updated, err
+		}
+
+		if tagUpdated {
+			updated = true
+		}
+		if tagForceNeeded {
+			forceNeeded = true
+		}
 	}
 
-	tags := fetchedRefs
-	if isWildcard {
-		tags = remoteRefs
-	}
-	tagUpdated, tagForceNeeded, err := r.buildFetchedTags(tags, tagMode == plumbing.AllTags, force)
-	if err != nil {
-		return updated, err
-	}
-
-	if tagUpdated {
-		updated = true
-	}
-	if tagForceNeeded {
-		forceNeeded = true
-	}
-
+	// A refused non-fast-forward update is reported whether or not tags are
+	// fetched.
 	if forceNeeded {
 		err = ErrForceNeeded
 	}
